@@ -52,6 +52,10 @@ def keyfn(row):
     (computed only to classify; the verdict is TLC's)."""
     if row.get("ev") == "Crash":
         return "mmapper:crash:%s:%s" % (row.get("k"), re.sub(r"0x[0-9a-f]+|\d+", "#", row.get("msg", ""))[:60])
+    if row.get("ev") == "Hang":
+        return "mmapper:hang"
+    if row.get("ev") == "VmMapFailed":
+        return "mmapper:K:unmapped-chunk-not-free"
     if row.get("ev") != "Op":
         return "mmapper:row:%s" % row.get("ev")
     if not row.get("ok", True):
@@ -151,7 +155,7 @@ def run(ctx):
         plan = [
             ("t5", 5, ["--mode", "tree", "--n", 5, "--depth", 3, "--places", "straddle"]),
             ("t6", 6, ["--mode", "tree", "--n", 6, "--depth", 2, "--places", "straddle,slabend"]),
-            ("a8", 8, ["--mode", "tree", "--n", 8, "--depth", 1, "--variants", 5,
+            ("a8", 8, ["--mode", "tree", "--n", 8, "--depth", 1, "--variants", 7,
                        "--places", "interior,slabstart"]),
             ("r16", 16, ["--mode", "random", "--n", 16, "--hist", 120, "--maxlen", 14,
                          "--places", "straddle,interior"]),
@@ -161,12 +165,12 @@ def run(ctx):
                                  "--shard", "%d/3" % i]) for i in range(3)]
         plan += [
             ("t5o", 5, ["--mode", "tree", "--n", 5, "--depth", 3, "--places", "interior,slabstart,slabend"]),
-            ("t6a", 6, ["--mode", "tree", "--n", 6, "--depth", 3, "--places", "straddle,interior"]),
-            ("t6b", 6, ["--mode", "tree", "--n", 6, "--depth", 3, "--places", "slabstart,slabend"]),
-            ("t8", 8, ["--mode", "tree", "--n", 8, "--depth", 2, "--variants", 2, "--places", allp]),
-            ("a8", 8, ["--mode", "tree", "--n", 8, "--depth", 1, "--variants", 5, "--places", allp]),
-            ("r16", 16, ["--mode", "random", "--n", 16, "--hist", 2500, "--maxlen", 16, "--places", allp]),
-            ("r8", 8, ["--mode", "random", "--n", 8, "--hist", 2500, "--maxlen", 10, "--places", allp]),
+            ("t6a", 6, ["--mode", "tree", "--n", 6, "--depth", 3, "--places", "straddle,slabend"]),
+            ("t6b", 6, ["--mode", "tree", "--n", 6, "--depth", 2, "--places", "interior,slabstart"]),
+            ("t8", 8, ["--mode", "tree", "--n", 8, "--depth", 2, "--places", allp]),
+            ("a8", 8, ["--mode", "tree", "--n", 8, "--depth", 1, "--variants", 7, "--places", allp]),
+            ("r16", 16, ["--mode", "random", "--n", 16, "--hist", 800, "--maxlen", 16, "--places", allp]),
+            ("r8", 8, ["--mode", "random", "--n", 8, "--hist", 800, "--maxlen", 10, "--places", allp]),
         ]
     _patch_violation(ctx)
     # traces of the same window size are concatenated (each starts with its own Reset row) so that
